@@ -130,14 +130,15 @@ def c2s(ctx, n):
         part = framework.pool_map(random_trace, [j for j in jobs if j[2] == nw])
         if part:
             ctx.validate("sync", "Trace_CondEvent", "Trace_CondEvent.cfg", part, overrides={"NW": nw},
-                         sig_fn=_trace_sig, label="c2s-nw%d" % nw)
+                         sig_fn=_trace_sig, label="c2s-nw%d" % nw, timeout=ctx.pick(900, 3000))
 
 
 def run(ctx):
     # 1. model checking of the specification
     ctx.mc("sync", "CondEvent", "MC_CondEvent.cfg",
            overrides=ctx.pick({}, {"NW": 5, "Timeouts": "{0, 1, 2, 3, 999}", "MaxAdvance": 3, "MaxNotify": 4}),
-           required_actions=["Wait", "Notify", "NotifyAll", "EvWait", "Set", "Clear", "Advance", "Cancel"])
+           required_actions=["Wait", "Notify", "NotifyAll", "EvWait", "Set", "Clear", "Advance", "Cancel"],
+           timeout=ctx.pick(900, 3000))
     # 2. spec -> code: all paths up to L over three alphabets
     rule = []
     for name, ov, lq, lt in GEN_FAMILIES:
@@ -186,6 +187,12 @@ def random_replay(t, nw):
     ev = []
     try:
         for e in t["ev"]:
+            # the recorded operation sequence was chosen against the recording tree's state; operations that
+            # are not applicable on this tree (cancel of a finished wait, advance without a deadline) are skipped
+            if e["a"] == "cancel" and e["args"][0] not in real.pending():
+                continue
+            if e["a"] == "advance" and not any(real.dl.get(w) is not None for w in real.pending()):
+                continue
             ev.append({"a": e["a"], "args": e["args"], "obs": real.step(e["a"], e["args"])})
     finally:
         real.close()
